@@ -184,6 +184,10 @@ class Normalizer:
         if c.endswith("::from") and "convert" in c and len(args) == 1 and n.get("ty") in INT_BITS and \
                 (args[0].get("ty") in INT_BITS or args[0].get("ty") == "bool"):
             return self.rewrite({"k": "Cast", "e": args[0], "ty": n["ty"], "id": n.get("id"), "sp": n.get("sp"), "nf": "NF3"})
+        if c.split("::")[-1] == "try_from" and c.startswith("core::convert::") and len(args) == 1:
+            # T::try_from(x)  ->  x.try_into()   (the same conversion, spelled from the other side)
+            return {"k": "MethodCall", "name": "try_into", "callee": "core::convert::TryInto::try_into", "recv": args[0], "args": [],
+                    "recv_ty": args[0].get("ty"), "id": n.get("id"), "ty": n.get("ty"), "sp": n.get("sp"), "nf": "NF3"}
         if c == "core::ops::range::RangeInclusive::new" and len(args) == 2 and _int(args[0]) == 0:
             return {"k": "StructLit", "path": {"k": "Item", "dk": "Struct", "path": "core::ops::range::RangeToInclusive"},
                     "fields": [{"name": "end", "e": args[1]}], "id": n.get("id"),
